@@ -164,3 +164,11 @@ def run(ctx, chk):
     # ---- Q2: poller default instant is at least the grace period in the past
     from . import C13
     C13.check_default_instant(fb, chk, 'C09.Q2')
+
+    # a publication is a call of the segment writer; that the call stores the record on every one of its paths -- no early
+    # return that silently keeps what an earlier daemon or an earlier outcome left in the segment -- is C02.S1's statement,
+    # and "clients must see Unknown" depends on it
+    from . import C02
+    n_imp = common.import_obligations(ctx, chk, C02, 'C09', LEVEL, lambda o: o['rule'] == 'C02.S1' and o['key'] == 'write:has-data-write', 'C09.Q3')
+    if not getattr(chk, '_nested', False):
+        chk.floor('C09.Q3', 'paths of the segment write checked for storing the record (imported)', n_imp, 1)
